@@ -11,3 +11,50 @@ def generate(profile, seed):
     if callable(p):
         return p(seed)
     return scenario.gen_scenario(seed, p)
+
+
+def conf_basic(seed):
+    """Conformance profile: only behaviour that Core models; lower-case names; tick-aligned delays."""
+    import random
+    rng = random.Random(seed)
+    nw = rng.choice([1, 1, 2])
+    ws = []
+    for i in range(nw):
+        ws.append({"name": "w%d" % (i + 1), "np": rng.choice([0, 1, 1, 2, 2, 3]),
+                   "G": rng.choice([0.0, 0.1, 0.2, 0.3]), "W": rng.choice([0.0, 0.0, 0.1, 0.2]),
+                   "singleton": False, "respawn": rng.random() < 0.85, "priority": rng.choice([0, 0, 1]),
+                   "autostart": rng.random() < 0.9})
+    names = [w["name"] for w in ws]
+    sc = {"seed": seed, "watchers": ws, "check_delay": rng.choice([0.3, 0.5]),
+          "warmup_delay": rng.choice([0.0, 0.0, 0.1]),
+          "stubborn": [n for n in names if rng.random() < 0.3],
+          "obeys": [rng.random() < 0.8 for _ in range(5)], "instant_death": False, "script": [{"op": "boot"}]}
+    s = sc["script"]
+    s.append({"op": "tick", "n": rng.randint(0, 8)})
+    cmds = ["incr", "decr", "set_np", "restart", "reload", "kill", "stop", "start", "status", "numprocesses",
+            "signal"]
+    p = {"cmds": cmds}
+    for _ in range(rng.randint(2, 14)):
+        r = rng.random()
+        w = rng.choice(names)
+        if r < 0.4:
+            q = scenario.gen_request(rng, w, p, names)
+            q["props"] = {k: v for k, v in q["props"].items() if k not in ("children", "recursive")}
+            if "name" in q["props"]:
+                q["props"]["name"] = q["props"]["name"].lower()
+            if q["cmd"] == "list":
+                q["props"] = {}
+            s.append(q)
+        elif r < 0.6:
+            d = {"op": "die", "sel": [w, rng.randint(0, 3)], "status": rng.choice(scenario.EXIT_STATUSES)}
+            if rng.random() < 0.3:
+                d = {"op": "extkill", "sel": [w, rng.randint(0, 3)]}
+            s.append(d)
+        else:
+            s.append({"op": "tick", "n": rng.randint(1, 5)})
+    s.append({"op": "tick", "n": 12})
+    s.append({"op": "end", "xprobe": False, "passes": 1, "noprobe": True})
+    return sc
+
+
+PROFILES["conf_basic"] = conf_basic
